@@ -434,6 +434,9 @@ def run(prog: Program, res: Result, tier: str) -> None:
     classes = [("SquarePlanar", 4, (0,)), ("TrigonalBipyramidal", 5, (1, -1))]
     if isinstance(exp.get("Octahedral"), dict) and "loop" in exp["Octahedral"]:
         classes.append(("Octahedral", 6, (1, -1)))
+    # helpers outside the inventory the export models were read through
+    sees = sorted({f"<sees:{q}>" for m_ in exp.values() if isinstance(m_, dict)
+                   for q in m_.get("seen_through", ())})
     for cls, k, parities in classes:
         model = exp.get(cls)
         if model is None:
@@ -480,7 +483,7 @@ def run(prog: Program, res: Result, tier: str) -> None:
             if lab not in itab:
                 res.bad("T-INVERSE", f"{cls} label {lab} unknown to importer",
                         efi.loc(model["loop"]), f"{inst}: the importer has no "
-                        f"label {lab}", instance=inst)
+                        f"label {lab}", instance=inst, context=sees)
             elif itab[lab] == (a, p):
                 res.ok("T-INVERSE", inst, efi.loc(model["loop"]))
             elif G.equiv(cls, a, p, *itab[lab]):
@@ -490,7 +493,7 @@ def run(prog: Program, res: Result, tier: str) -> None:
                 res.bad("T-INVERSE", f"{cls} label {lab} disagrees",
                         efi.loc(model["loop"]),
                         f"{inst}: exporter builds {a}/{p}, importer reads "
-                        f"{itab[lab]}", instance=inst)
+                        f"{itab[lab]}", instance=inst, context=sees)
         # round trip
         n_bad = 0
         first_bad = None
@@ -522,7 +525,7 @@ def run(prog: Program, res: Result, tier: str) -> None:
             res.bad("T-ROUNDTRIP", f"{cls} round trip", efi.loc(model["loop"]),
                     f"{inst}: {n_bad} of {cells} fail, e.g. descriptor "
                     f"{d} parity {par} with RDKit neighbours {nb}: {why}",
-                    instance=inst)
+                    instance=inst, context=sees)
     # ------------------------------------------------------------ octahedral
     om = exp["Octahedral"]
     inst = "Octahedral: export re-inserts the bonds in a fixed order"
